@@ -30,6 +30,8 @@ func TestVerifC07(t *testing.T) {
 		return
 	}
 	dist := vk.Distinct{}
+	steps := &simCases{o: o, m: m, prefix: "c07s", checker: "mismatches_mgr"}
+	prefixes := &simCases{o: o, m: m, prefix: "c07p", checker: "mismatches_mgr_prefix"}
 	shapes := []simIn{}
 	for _, fault := range []string{"switch_to", "switch_from", "failover_req"} {
 		for _, n := range []int{2, 3} {
@@ -38,6 +40,9 @@ func TestVerifC07(t *testing.T) {
 			}
 		}
 	}
+	// planned switchovers without semi-sync (no speed-up phase: the crashed iteration is a prefix of perform_switchover's model run)
+	shapes = append(shapes, simIn{N: 3, WaitCount: 1, NoSemiSync: true, Failover: true, Fault: "switch_to", Target: 2, At: 2, Duration: 1, Ticks: 26},
+		simIn{N: 2, WaitCount: 1, NoSemiSync: true, Failover: true, Fault: "switch_from", Target: 1, At: 2, Duration: 1, NextSame: true, Ticks: 26})
 	// automatic failover: the master dies, the manager that processes the filed request dies too
 	for _, same := range []bool{false, true} {
 		shapes = append(shapes, simIn{N: 3, WaitCount: 1, Failover: true, Fault: "crash_node", Target: 1, At: 2, Duration: 14, NextSame: same, Ticks: 40})
@@ -88,6 +93,10 @@ func TestVerifC07(t *testing.T) {
 				continue
 			}
 			m.Count("crash_points")
+			prefixes.add(in, out.Prefix)
+			if len(ks) > 0 && k == ks[len(ks)/2] {
+				steps.add(in, out.Steps)
+			}
 			for _, p := range out.Panics {
 				m.Violation("no iteration terminates the process", in, p)
 			}
@@ -98,6 +107,8 @@ func TestVerifC07(t *testing.T) {
 			}
 		}
 	}
+	steps.flush()
+	prefixes.flush()
 	m.DistinctNontrivial = dist.Len()
 	m.Rule = "the real daemons (one App per host, real state machine, health and recovery checkers) over fake servers: a request (switch to / switch from / operator-forced failover) on 2-3 node clusters (thorough: 4 nodes, cascade replica); the manager that processes it dies before its k-th external call for k = 1..all (quick: every 7th), with the same or another host becoming the next manager; 26 ticks of 5 s; the end state is checked; distinct = distinct crash points"
 	o.WriteMeta("c07", m)
